@@ -175,10 +175,11 @@ static void gen_random(vh_rng *r, int c05bias)
 	if (S.nslot > MAXSLOT) S.nslot = MAXSLOT;
 	gen_fdnums(r);
 	for (i = 0; i < S.nslot; i++) S.et[i] = (unsigned char)vh_chance(r, 1, 4);
-	S.nev = big ? (int)vh_range(r, 70, 160) : (int)vh_range(r, 2, 9);
+	S.nev = big ? (int)vh_range(r, S.nslot, 170) : (int)vh_range(r, 2, 9);
 	for (i = 0; i < S.nev; i++) {
 		/* 1-4 events per fd: half of the events go to a slot that already has one */
 		S.ev[i].slot = (short)((i > 0 && vh_chance(r, 1, 2)) ? S.ev[vh_below(r, (uint64_t)i)].slot : (short)vh_below(r, (uint64_t)(big ? S.nslot : 2 * nobj)));
+		if (big && i < S.nslot) S.ev[i].slot = (short)i;     /* every fd gets an event: > 64 fds change between two waits */
 		S.ev[i].interest = g_pick_interest(r);
 		S.ev[i].persist = (unsigned char)vh_chance(r, 7, 10);
 	}
@@ -191,9 +192,9 @@ static void gen_random(vh_rng *r, int c05bias)
 			S.nstep = st;
 			if (st == 0) {
 				for (i = 0; i < nobj; i++) g_newobj(g_pick_type(r, !big), 2 * i, 2 * i + 1, 0);
-				n = big ? (int)vh_range(r, 60, 140) : (int)vh_range(r, 1, 5);
+				n = big ? S.nev + (int)vh_range(r, 0, 40) : (int)vh_range(r, 1, 5);
 				for (i = 0; i < n; i++) {
-					int e = (int)vh_below(r, (uint64_t)S.nev);
+					int e = (big && i < S.nev) ? i : (int)vh_below(r, (uint64_t)S.nev);
 					if (g_open[S.ev[e].slot]) g_act(A_ADD, e, 0, 0, 0);
 				}
 				if (!big && vh_chance(r, 1, 2)) gen_random_action(r, 0, 0);
@@ -272,6 +273,7 @@ static struct trace {
 	int ran, nsteps_done;
 	short before[MAXSTEP][MAXSLOT], after[MAXSTEP][MAXSLOT];
 	unsigned char nwaits[MAXSTEP];
+	unsigned char type[MAXSTEP][MAXSLOT];
 	struct trace_ev ev[MAXSTEP][MAXEV];
 } tr[NCFG];
 
@@ -480,6 +482,9 @@ static void wait_hook(int kind, int64_t timeout_us, void *a, void *b, void *c, i
 	}
 	if (mode_c05) c05_check(kind, a, b, n);
 	if (nwaits_step == 1) {
+		int nchanged = 0;
+		for (i = 0; i < S.nslot; i++) if (rs[i].regchange) nchanged++;
+		if (nchanged > 64) vh_stat("waits_after_over_64_fds_changed");
 		for (i = 0; i < S.nslot; i++) {
 			int j, na = 0;
 			rs[i].act_at_wait = rs[i].activity; rs[i].reg_at_wait = rs[i].regchange;
@@ -814,7 +819,7 @@ static void run_config(int cfg, long caseidx)
 		}
 		if (!mode_c05) c04_oracle(st, before, after);
 		for (i = 0; i < S.nslot; i++) {
-			T->before[st][i] = before[i]; T->after[st][i] = after[i];
+			T->before[st][i] = before[i]; T->after[st][i] = after[i]; T->type[st][i] = (unsigned char)rs[i].type;
 			if (rs[i].fd >= 0) { rs[i].prev_after = after[i]; rs[i].prev_after_valid = 1; }
 		}
 		T->nwaits[st] = (unsigned char)nwaits_step;
@@ -839,6 +844,7 @@ static void run_config(int cfg, long caseidx)
 	}
 	/* teardown */
 	for (i = 0; i < S.nev; i++) if (rv[i].ev) { event_del(rv[i].ev); event_free(rv[i].ev); rv[i].ev = NULL; }
+	if (cur_be == 1 && base->changelist.changes_size > 64) vh_stat("changelist_grown_past_64");
 	event_del(sig_ev); event_free(sig_ev); event_free(tick_ev);
 	event_base_free(base); base = NULL;
 	for (i = 0; i < S.nslot; i++) if (rs[i].fd >= 0) { __real_close(rs[i].fd); rs[i].fd = -1; }
@@ -849,7 +855,7 @@ static void run_config(int cfg, long caseidx)
 static void cross_compare(unsigned cfgmask)
 {
 	int c1, c2, st, i;
-	char b1[8], b2[8], b3[40], key[96];
+	char b1[8], b2[8], b4[8], b3[40], key[96];
 	for (c1 = 0; c1 < NCFG; c1++) for (c2 = c1 + 1; c2 < NCFG; c2++) {
 		int same_backend = CFG_BE(c1) == CFG_BE(c2);
 		int both_close = CFG_BE(c1) != 3 && CFG_BE(c2) != 3;
@@ -871,6 +877,10 @@ static void cross_compare(unsigned cfgmask)
 				if (x->victim || y->victim) { diverged_ev[i] = 1; continue; }     /* order of callbacks on one fd is not specified */
 				if (S.et[s] && (BE_IS_EPOLL(CFG_BE(c1)) || BE_IS_EPOLL(CFG_BE(c2))) && !same_backend) { diverged_ev[i] = 1; continue; }  /* ET vs LT semantics / re-arm by MOD */
 				if (S.et[s] && same_backend && tr[c1].nwaits[st] != tr[c2].nwaits[st]) { diverged_ev[i] = 1; continue; }
+				/* loopback TCP wakes edge-triggered waiters asynchronously (ACKs): no exact comparison */
+				if (S.et[s] && tr[c1].type[st][s] == T_TCP) { diverged_ev[i] = 1; vh_stat("xcfg_tcp_et_skipped"); continue; }
+				/* the state must have been stable over the iteration in both runs, else the wait may have seen either */
+				if (B != A) { diverged_ev[i] = 1; vh_stat("xcfg_unstable_state_skipped"); continue; }
 				/* CALIBRATED: "writable" derived from HUP alone is backend dependent (select does not report it) */
 				if (((B | A) & POLLHUP) && !(B & A & (POLLOUT | POLLERR))) gray |= PW;
 				if (!both_close) gray |= PC;
@@ -883,7 +893,7 @@ static void cross_compare(unsigned cfgmask)
 					snprintf(key, sizeof(key), "C04:backends-disagree:%s:%s-vs-%s", cls, be_name[CFG_BE(c1)], be_name[CFG_BE(c2)]);
 					vh_viol(key, "step=%d ev%d fd%d (requested %s): %s ran %d callback(s) what=%s, %s ran %d callback(s) what=%s; poll(2) state {%s}",
 						st, i, S.fdnum[s], pbits(ev2p(S.ev[i].interest), b1), cfg_name[c1], x->fire_n, pbits(ev2p(x->what_or), b2), cfg_name[c2], y->fire_n,
-						pbits(ev2p(y->what_or), b1), state_str(B, b3));
+						pbits(ev2p(y->what_or), b4), state_str(B, b3));
 					diverged_ev[i] = 1;
 				}
 				if ((x->fire_n > 0) != (y->fire_n > 0)) diverged_ev[i] = 1;    /* one-shot events now differ in state */
@@ -915,6 +925,33 @@ static void print_script(FILE *f)
 		if (S.step[st].killer >= 0) fprintf(f, " [cb of ev%d deletes ev%d]", S.step[st].killer, S.step[st].victim);
 		fprintf(f, "\n");
 	}
+}
+
+/* the literal script as compact JSON (truncated for very large histories) */
+static void script_json(char *buf, size_t cap)
+{
+	size_t o = 0; int st, i; char b[8];
+	static const char *tn[3] = { "pipe", "unix", "tcp" };
+	o += (size_t)snprintf(buf + o, cap - o, "{\"fds\":[");
+	for (i = 0; i < S.nslot && o + 64 < cap; i++) o += (size_t)snprintf(buf + o, cap - o, "%s\"%d%s\"", i ? "," : "", S.fdnum[i], S.et[i] ? ":ET" : "");
+	o += (size_t)snprintf(buf + o, cap - o, "],\"events\":[");
+	for (i = 0; i < S.nev && o + 64 < cap; i++)
+		o += (size_t)snprintf(buf + o, cap - o, "%s\"fd%d:%s:%s\"", i ? "," : "", S.fdnum[S.ev[i].slot], pbits(ev2p(S.ev[i].interest), b), S.ev[i].persist ? "persist" : "oneshot");
+	o += (size_t)snprintf(buf + o, cap - o, "],\"steps\":[");
+	for (st = 0; st < S.nstep && o + 96 < cap; st++) {
+		o += (size_t)snprintf(buf + o, cap - o, "%s\"", st ? "," : "");
+		for (i = 0; i < S.step[st].nact && o + 96 < cap; i++) {
+			struct act *x = &S.act[S.step[st].first + i];
+			if (x->kind == A_NEWOBJ) o += (size_t)snprintf(buf + o, cap - o, "new %s fd%d<->fd%d; ", tn[x->n], S.fdnum[x->a], S.fdnum[x->b]);
+			else if (x->kind == A_ADD || x->kind == A_DEL) o += (size_t)snprintf(buf + o, cap - o, "%s ev%d; ", act_name[x->kind], x->a);
+			else if (x->kind == A_SIGNAL) o += (size_t)snprintf(buf + o, cap - o, "raise SIGWINCH; ");
+			else if (x->kind == A_CLOSE) o += (size_t)snprintf(buf + o, cap - o, "close fd%d%s%s; ", S.fdnum[x->a], (x->flag & 1) ? " before-del" : "", (x->flag & 2) ? " abortive" : "");
+			else o += (size_t)snprintf(buf + o, cap - o, "%s fd%d %d; ", act_name[x->kind], S.fdnum[x->a], x->n);
+		}
+		if (S.step[st].killer >= 0) o += (size_t)snprintf(buf + o, cap - o, "cb(ev%d) deletes ev%d; ", S.step[st].killer, S.step[st].victim);
+		o += (size_t)snprintf(buf + o, cap - o, "LOOP\"");
+	}
+	snprintf(buf + o, cap - o, "]%s}", (st < S.nstep) ? ",\"truncated\":true" : "");
 }
 
 int main(int argc, char **argv)
@@ -953,10 +990,10 @@ int main(int argc, char **argv)
 		}
 		if (nontrivial) vh_distinct(script_hash());
 		(void)cb0; (void)w0;
-		if (nontrivial) {
-			struct act *x = &S.act[S.step[S.nstep > 1 ? 1 : 0].first];
-			vh_sample(2, "{\"case\":%ld,\"mode\":\"%s\",\"slots\":%d,\"events\":%d,\"steps\":%d,\"actions\":%d,\"enum\":\"%s\",\"step1_first_action\":\"%s(%d)\",\"configs\":\"%#x\"}",
-				idx, vh_opt.mode ? vh_opt.mode : "c04", S.nslot, S.nev, S.nstep, S.nact, desc, S.step[S.nstep > 1 ? 1 : 0].nact ? act_name[x->kind] : "none", x->a, cfgmask);
+		if (nontrivial && S.nslot <= 8) {
+			static char sj[1700];
+			script_json(sj, sizeof(sj));
+			vh_sample(2, "{\"case\":%ld,\"mode\":\"%s\",\"enum\":\"%s\",\"configs\":\"%#x\",\"script\":%s}", idx, vh_opt.mode ? vh_opt.mode : "c04", desc, cfgmask, sj);
 		}
 	}
 	if (listener >= 0) __real_close(listener);
